@@ -2,8 +2,9 @@
 # Builds the harness (plain and race-instrumented) offline from files on disk.
 set -e
 export GOFLAGS=-mod=mod GOPROXY=off GOSUMDB=off GOTOOLCHAIN=local CGO_ENABLED=1
-cd /verif/harness
-mkdir -p /verif/bin /verif/evidence
-go build -tags verif -o /verif/bin/vcheck ./cmd/vcheck
-go build -race -tags verif -o /verif/bin/vcheck-race ./cmd/vcheck
+ROOT=$(cd "$(dirname "$0")" && pwd)
+cd "$ROOT/harness"
+mkdir -p "$ROOT/bin" "$ROOT/evidence"
+go build -tags verif -o "$ROOT/bin/vcheck" ./cmd/vcheck
+go build -race -tags verif -o "$ROOT/bin/vcheck-race" ./cmd/vcheck
 echo "setup ok"
